@@ -73,6 +73,14 @@ type GenOpt struct {
 	AvoidSize        int        // no generated file has exactly this size (keeps the --above boundary out of unrelated cases)
 	Midway           *MidwayOpt `json:",omitempty"` // "LFS adopted midway" history (midway.go) instead of the general generator
 	Nested           *NestedOpt `json:",omitempty"` // --fixup history whose attribute state changes through nested files only (nested.go)
+	// Dates: how commit dates are laid out. "" = committer dates increase in creation order (so every
+	// ancestor is older than its descendants) and the author date lies up to ~28 h before it;
+	// "ancestor-later": root commits, every commit made while there is only one branch (this includes
+	// the first fork point) and a random quarter of the others carry a committer date LATER than
+	// everything created afterwards; "decreasing": committer dates decrease in creation order;
+	// "identical": all commits share one author = committer date; "author-skewed": committer dates as
+	// usual, author dates up to 400 days before or AFTER them. A branch is forced early on.
+	Dates string `json:",omitempty"`
 }
 
 type Gen struct {
@@ -91,7 +99,8 @@ type Gen struct {
 	pool         [][]byte
 	tick         int
 	exoticAt     int
-	attrFlip     int // commit number at which the fixup attribute line is added / removed
+	dr           *rand.Rand // separate stream for the date coordinate (leaves the main stream untouched)
+	attrFlip     int        // commit number at which the fixup attribute line is added / removed
 	sizesLeft    []int
 	ExoticCommit int               // idx of the commit carrying opt.Exotic (-1 none)
 	TagLabels    map[string]string // refs/tags/x -> "lightweight" | "annotated" | "annotated-tag-of-tag"
@@ -128,6 +137,7 @@ func NewGen(env *sbx.Env, name string, seed int64, opt GenOpt) *Gen {
 	g.sizesLeft = append([]int(nil), opt.Sizes...)
 	g.exoticAt = 1 + g.r.Intn(g.opt.Commits-1)
 	g.attrFlip = 2 + g.r.Intn(3)
+	g.dr = rand.New(rand.NewSource(seed ^ 0x5eed0da7e5))
 	if opt.Midway != nil {
 		g.buildMidway()
 	} else if opt.Nested != nil {
@@ -395,6 +405,10 @@ func (g *Gen) commit(t Tree, parents []int, labels ...string) int {
 	g.tick++
 	idx := len(g.C)
 	base := int64(1700000000 + g.tick*3600)
+	late := false
+	if g.opt.Dates == "ancestor-later" {
+		late = len(parents) == 0 || len(g.BrO) <= 1 || g.dr.Intn(4) == 0
+	}
 	subject := fmt.Sprintf("c%d %s", idx, strings.Join(labels, " "))
 	msg := subject + "\n\nbody of commit " + fmt.Sprint(idx) + "\n  indented line, trailing space \n\nSigned-off-by: " + authors[g.r.Intn(len(authors))] + "\n"
 	var extra string
@@ -428,8 +442,24 @@ func (g *Gen) commit(t Tree, parents []int, labels ...string) int {
 	for _, p := range parents {
 		fmt.Fprintf(&sb, "parent %s\n", g.C[p].Sha)
 	}
-	fmt.Fprintf(&sb, "author %s\n", g.sigLine(base-int64(g.r.Intn(100000))))
-	fmt.Fprintf(&sb, "committer %s\n", g.sigLine(base))
+	adate := base - int64(g.r.Intn(100000))
+	cdate := base
+	switch g.opt.Dates {
+	case "ancestor-later":
+		if late {
+			cdate += 3000 * 3600
+			adate += 3000 * 3600
+		}
+	case "decreasing":
+		cdate = int64(1700000000 + (6000-g.tick)*3600)
+		adate = cdate - (base - adate)
+	case "identical":
+		cdate, adate = 1711111111, 1711111111
+	case "author-skewed":
+		adate = cdate + int64(g.dr.Intn(800*86400)) - 400*86400
+	}
+	fmt.Fprintf(&sb, "author %s\n", g.sigLine(adate))
+	fmt.Fprintf(&sb, "committer %s\n", g.sigLine(cdate))
 	sb.WriteString(extra)
 	sb.WriteString("\n")
 	sb.WriteString(msg)
@@ -504,6 +534,9 @@ func (g *Gen) build() {
 	names := []string{"br1", "feature/x", "br3", "topic-4"}
 	for n := 1; n < g.opt.Commits; n++ {
 		k := g.r.Intn(100)
+		if g.opt.Dates != "" && n == 3 && len(g.BrO) == 1 {
+			k = 0 // the date coordinate needs a fork point
+		}
 		switch {
 		case k < 14 && len(g.BrO) < 5: // new branch from any commit of the current branch's tip
 			b := names[(len(g.BrO)-1)%len(names)]
